@@ -424,6 +424,7 @@ SCHEDULES = [
     ("busy-worker-reports-late", lambda n, d: {"Process-1": {"post": 4 * d}, "Process-2": {"pre": d}}),
     ("spurious-empty-on-first-worker", lambda n, d: {"Process-1": {"spurious_empty": 1}}),
     ("spurious-empty-on-all-but-last", lambda n, d: dict(("Process-%d" % (i + 1), {"spurious_empty": 1}) for i in range(n - 1))),
+    ("spurious-empty-on-every-worker", lambda n, d: dict(("Process-%d" % (i + 1), {"spurious_empty": 1}) for i in range(n))),
     ("staggered", lambda n, d: dict(("Process-%d" % (i + 1), {"pre": i * d, "post": (n - i) * d}) for i in range(n))),
     ("reverse-staggered", lambda n, d: dict(("Process-%d" % (i + 1), {"pre": (n - i) * d, "post": i * d}) for i in range(n))),
 ]
@@ -602,7 +603,8 @@ def cases(tier, seed):
     rng = random.Random(seed)
     opts = [("--rooted", "R"), ("--unrooted", "U"), (None, "R"), (None, "U"), (None, ""), ("--rooted", ""), ("--unrooted", "R")]
     for n, (sched, nfiles, nworkers) in enumerate(confs):
-        if quick and n % 2 != seed % 2 and SCHEDULES[sched][0] not in ("idle-worker-reports-last", "idle-worker-reports-first"):
+        if quick and n % 2 != seed % 2 and SCHEDULES[sched][0] not in ("idle-worker-reports-last", "idle-worker-reports-first",
+                                                                        "spurious-empty-on-every-worker"):
             continue
         ro, tok = opts[(n + seed) % len(opts)]
         yield {"kind": "sumtrees", "nfiles": nfiles, "nworkers": nworkers, "rooting": ro, "token": tok, "sched": sched,
